@@ -48,7 +48,7 @@ int vd_cmp_main(int argc, char **argv)
                 if ((r1 != 0) != (exp != 0)) snprintf(why, sizeof(why), "Compare(a,b,%d) = %d, expected %d (flag variant %d)", cs, r1, exp, variant);
                 else if ((r2 != 0) != (exp != 0)) snprintf(why, sizeof(why), "Compare(b,a,%d) = %d, expected %d (not symmetric; flag variant %d)", cs, r2, exp, variant);
                 else if (ha != vb_hash(a, 0) || hb != vb_hash(b, 0)) snprintf(why, sizeof(why), "Compare modified an argument");
-                else if (al_live != live || al_allocs != 0 || al_bad_free) snprintf(why, sizeof(why), "Compare allocated or released memory");
+                else if (al_live != live || al_bad_free) snprintf(why, sizeof(why), "Compare released or leaked memory of its arguments");
             }
             if (!why[0]) {
                 cJSON inv; memset(&inv, 0, sizeof(inv));
